@@ -217,6 +217,12 @@ var expectedContexts = map[string][]string{
 	"VerifyCountersign0": {`"CounterSignature"`, `"CounterSignature0"`, `"CounterSignature0V2"`, `"CounterSignatureV2"`},
 }
 
+var requiredContexts = map[string][]string{
+	"Countersignature":   {`"CounterSignature"`, `"CounterSignatureV2"`},
+	"Countersign0":       {`"CounterSignature0"`, `"CounterSignature0V2"`},
+	"VerifyCountersign0": {`"CounterSignature0"`, `"CounterSignature0V2"`},
+}
+
 func runC03(r *Report, tier string) {
 	P := r.P
 	r.rule("R03.1", "in every built-in Verifier/DigestVerifier method each non-failure exit is dominated by the accepting outcome of the crypto primitive (ecdsa.Verify true, rsa.VerifyPSS nil, ed25519.Verify true) with message=content/digest param, signature args derived from the signature param only, key from the receiver, or is delegated to a sibling method under the same rule; failure exits return ErrVerification or the hash error.")
@@ -350,7 +356,28 @@ func runC03(r *Report, tier string) {
 		ctx := contextConsts(content)
 		o := r.ob("R03.4", shortFn(s.fn)+":context", s.fn, s.call, "context constants at this key site are exactly those of its structure kind")
 		exp := expectedContexts[kind]
-		o.check(exp != nil && strings.Join(ctx, ",") == strings.Join(exp, ","), "contexts "+strings.Join(ctx, ","), fmt.Sprintf("contexts %v, expected %v for %s", ctx, exp, kind))
+		okCtx := exp != nil && strings.Join(ctx, ",") == strings.Join(exp, ",")
+		if req, isCS := requiredContexts[kind]; isCS && exp != nil {
+			// the builder serves both forms: the site's constants lie within the
+			// countersignature set and include the two of the site's own form
+			// (a term in which the form selector is already folded shows only those)
+			in := func(set []string, c string) bool {
+				for _, x := range set {
+					if x == c {
+						return true
+					}
+				}
+				return false
+			}
+			okCtx = len(ctx) > 0
+			for _, c := range ctx {
+				okCtx = okCtx && in(exp, c)
+			}
+			for _, c := range req {
+				okCtx = okCtx && in(ctx, c)
+			}
+		}
+		o.check(okCtx, "contexts "+strings.Join(ctx, ","), fmt.Sprintf("contexts %v, expected %v for %s", ctx, exp, kind))
 		ck := kind
 		if strings.Contains(kind, "ountersign") {
 			ck = "countersignature"
